@@ -131,11 +131,28 @@ def check_cases(ck, cases, faulty, tag):
                 lv['general_N'] = c['cfg']['N'] + ck.rng.choice([1, 2, 5])
             elif y < 0.4:
                 lv['inherit_N'] = True
+            # the gauge adapter: the built-in RebenchLog one, or a custom adapter file whose own invalid-result
+            # pattern is the bare word FAILED (like the Multivariate / TestExecutor adapters: no leading `.*`)
+            if ck.rng.random() < 0.3:
+                lv['custom'] = {'variant': 0}
+            texts = (['benchmark verification FAILED', 'FAILED', 'step 3 FAILED (checksum)', 'xx Error yy']
+                     if lv.get('custom') else
+                     ['Error: simulated', 'xx Error yy', 'the result is incorrect', 'Segmentation fault (core dumped)',
+                      'step Failed the verification', 'x Bus error'])
+            for o in c['outcomes']:
+                if o.get('marker') and 'marker_text' not in o:
+                    o['marker_text'] = ck.rng.choice(texts)
             c['levels'] = lv
         if c['levels'].get('general_retries') is not None:
             ck.count('levels:retries %s over general' % ('0' if c['cfg']['retries'] == 0 else '>0'))
         if c['levels'].get('inherit_retries'):
             ck.count('levels:retries inherited')
+        if c['levels'].get('custom'):
+            ck.count('gauge:custom adapter')
+        for o in c['outcomes']:
+            if o.get('marker'):
+                t = o.get('marker_text') or ''
+                ck.count('marker:%s' % ('line start' if t.startswith(('Error', 'FAILED', 'Segmentation')) else 'inside a line'))
     scn = {'runs': [dict(c['cfg'], exe=i, **c['levels']) for i, c in enumerate(cases)]}
     sess = {'sched': 'batch', 'faulty': faulty, 'scripts': [c['outcomes'] for c in cases]}
     wd = _mkwd(ck)
@@ -506,10 +523,10 @@ def search_neighbourhood(ck):
     for c in ck.pending_search[:20]:
         variants = []
         for cut in range(len(c['outcomes']) + 1):
-            variants.append({'cfg': c['cfg'], 'outcomes': c['outcomes'][:cut]})
+            variants.append({'cfg': c['cfg'], 'outcomes': c['outcomes'][:cut], 'levels': dict(c.get('levels') or {})})
         for dn, dr in ((1, 0), (-1, 0), (0, 1), (0, -1)):
             cfg = dict(c['cfg'], N=max(1, c['cfg']['N'] + dn), retries=max(0, c['cfg']['retries'] + dr))
-            variants.append({'cfg': cfg, 'outcomes': c['outcomes']})
+            variants.append({'cfg': cfg, 'outcomes': c['outcomes'], 'levels': dict(c.get('levels') or {})})
         for faulty in (False, True):
             check_cases(ck, variants, faulty, 'search')
             seen += len(variants)
